@@ -253,6 +253,15 @@ class C19(Prop):
             for tup in _it.permutations(parts, k):
                 t = " ".join(tup)
                 out.append(Case(f"cli {C.hexs(t)} decimal", "several-results", t))
+        # … and every KIND of unit next to every other in one invocation (what is printed for one
+        # result must not depend on the results before it): no unit, a numerator only, a
+        # denominator only, both, singular and plural, exact and decimal
+        kinds = ["(2)", "(1/2)", "(3 m)", "(1 m)", "(1/2 s)", "(1 / 2 s)", "(4 kg/s)", "(1/s^2)", "(1 kg/s)", "(2 / 3 m^2)", "(1/0)", "(0.5 ft)"]
+        for a, b in _it.permutations(kinds, 2):
+            for mode in ("decimal", "exact"):
+                out.append(Case(f"cli {C.hexs(a + ' ' + b)} {mode}", "unit-kinds-in-a-row", a + " " + b))
+        for tup in _it.permutations(["(3 m)", "(1/2 s)", "(2)", "(1/s^2)"], 3):
+            out.append(Case(f"cli {C.hexs(' '.join(tup))} exact", "unit-kinds-in-a-row", " ".join(tup)))
         for t in ("3 m / (1 s * 2 kg)", "6 / (2 s * 1 m)", "4.2 kJ/kg*K", "1 W/m^2*K^4", "1 kg*m^2/s^3*A^2", "1/(1 s * 1 m * 1 kg)",
                   "2 N*m/(1 s * 1 K)", "1 mol/(1 s * 1 cd * 1 B)"):
             for mode in ("exact", "decimal"):
